@@ -4,6 +4,7 @@ import collections
 import hashlib
 import itertools
 import json
+import os
 import random
 
 import runner
@@ -191,9 +192,83 @@ def nontrivial(case, out):
     return out not in ("ERR", "F") and not out.startswith("MAX")
 
 
+def openssl_roundtrip(ctx, dist):
+    """JWK -> OpenSSL key object -> JWK keeps every key member, hence thumbprint and equality (implementation only).
+    EC keys are built by independent python arithmetic so that coordinates / private values with a leading zero
+    octet (one key in 128; every second one on P-521) are certainly among them."""
+    import jwsgen as G
+    import pyec
+    rep = ctx["rep"]
+    bdir = ctx["bdir"]
+    rnd = random.Random(ctx["seed"] + 12)
+    J = G.dumps
+    keys = []
+    for crv, c in pyec.CURVES.items():
+        want = {"x0": None, "y0": None, "d0": None, "plain": None}
+        tries = 0
+        while any(v is None for v in want.values()) and tries < 3000:
+            tries += 1
+            d = rnd.randrange(1, c["n"]) if want["d0"] is not None or tries % 3 else rnd.randrange(1, c["n"] >> 8)
+            x, y = pyec.mul(c, d, pyec.base(c))
+            sz = c["size"]
+            xb, yb, db = x.to_bytes(sz, "big"), y.to_bytes(sz, "big"), d.to_bytes(sz, "big")
+            k = {"kty": "EC", "crv": crv, "x": G.b64(xb), "y": G.b64(yb), "d": G.b64(db)}
+            if xb[0] == 0 and want["x0"] is None:
+                want["x0"] = k
+            elif yb[0] == 0 and want["y0"] is None:
+                want["y0"] = k
+            elif db[0] == 0 and want["d0"] is None:
+                want["d0"] = k
+            elif xb[0] and yb[0] and db[0] and want["plain"] is None:
+                want["plain"] = k
+        for tag, k in want.items():
+            if k is not None:
+                keys.append(("EC %s %s" % (crv, tag), k))
+                keys.append(("EC %s %s public" % (crv, tag), G.pub_of(k)))
+    try:
+        rsa = json.load(open(os.path.join(os.path.dirname(__file__), "..", "data", "rsa_small.json")))
+        for b in ("2048", "2049", "1024"):
+            keys.append(("RSA %s" % b, rsa[b]))
+            keys.append(("RSA %s public" % b, G.pub_of(rsa[b])))
+    except Exception:
+        pass
+    cases = ["osslrt\t%s" % J(k) for _, k in keys]
+    outs = G.harness(bdir, cases)
+    thp = G.harness(bdir, ["thp\t%s\tS256" % J(k) for _, k in keys])
+    recheck = []
+    for (tag, k), c, o in zip(keys, cases, outs):
+        if o.startswith("CRASH"):
+            rep.violation("ossl-roundtrip:crash", "crash: " + o[:200], {"case": c})
+            continue
+        for route, txt in zip(("EVP_PKEY", "EC_KEY/RSA"), o.split("\t")):
+            if txt == "ERR":
+                rep.violation("ossl-roundtrip:failed:%s:%s" % (route, tag.split(" ")[0]), "%s: conversion through %s failed for a valid key" % (tag, route), {"case": c})
+                continue
+            back = json.loads(txt)
+            diff = [m for m in k if m != "alg" and back.get(m) != k[m]]
+            if diff:
+                rep.violation("ossl-roundtrip:member-changed:%s:%s" % (route, tag.split(" ")[0]),
+                              "%s: after JWK -> %s -> JWK the member(s) %s differ (e.g. %s: %s -> %s): thumbprint and equality are not preserved" %
+                              (tag, route, ",".join(diff), diff[0], str(k[diff[0]])[:30], str(back.get(diff[0]))[:30]), {"case": c, "implementation": txt[:600]})
+            recheck.append((tag, k, back))
+    eq = G.harness(bdir, ["eql\t%s\t%s" % (J(k), J(b)) for _, k, b in recheck])
+    for (tag, k, b), o in zip(recheck, eq):
+        if o != "T":
+            rep.violation("ossl-roundtrip:not-equal:" + tag.split(" ")[0], "%s: the key that comes back from OpenSSL is not jose_jwk_eql to the original" % tag, {"key": J(k), "back": J(b)})
+    dist["OpenSSL round trips (EC keys with leading-zero x / y / d on four curves, RSA)"] = len(cases)
+    return len(cases) + len(recheck)
+
+
 def correspond(ctx):
     cases, dist = gen(ctx["tier"], ctx["seed"])
+    nrt = openssl_roundtrip(ctx, dist)
+    st = standard_part(ctx, cases, dist)
+    st["evaluations"] += nrt
+    return st
+
+
+def standard_part(ctx, cases, dist):
     return runner.standard(
         ctx, cases, Oracle(), nontrivial,
-        rule="jose_jwk_thp / _thp_buf / _eql on generated keys (all types, kty spellings (incl. pairs that differ ONLY in the letter case of kty), missing/extra members, member orders, non-ASCII and escape-needing values, non-string values), all five hash names + unknown ones, buffer sizes around the digest length, pairs and triples for the relation laws; non-trivial = a thumbprint was produced / keys compared equal",
+        rule="JWK -> OpenSSL -> JWK round trips (both routes) of EC keys with leading-zero coordinates and RSA keys: members, thumbprint and equality preserved; jose_jwk_thp / _thp_buf / _eql on generated keys (all types, kty spellings (incl. pairs that differ ONLY in the letter case of kty), missing/extra members, member orders, non-ASCII and escape-needing values, non-string values), all five hash names + unknown ones, buffer sizes around the digest length, pairs and triples for the relation laws; non-trivial = a thumbprint was produced / keys compared equal",
         dist=dist)
